@@ -28,6 +28,8 @@ fn main() {
             if devnull >= 0 { libc::dup2(devnull, 2); }
         }
     }
+    // self-test of the driver's crash attribution: VERIF_FAKE_ABORT_SHARD=<i> makes worker i die like a crashing subject would
+    if std::env::var("VERIF_FAKE_ABORT_SHARD").ok().as_deref() == Some(shard.to_string().as_str()) && replay.is_none() { std::process::abort() }
     let mut ctx = Ctx::new(pid, tier, shard, nshards);
     match replay {
         Some(path) => {
